@@ -23,8 +23,31 @@ def _norm_hdr(h):
     return re.sub(r"\bwhere\b.*", "", hdr).strip()
 
 
+def _crate_items(root):
+    """names of the crate's PUBLIC types, and of the PRIVATE types and traits it defines (helper types of a refactor
+    and their trait impls are not API surface)"""
+    pub_types, priv_types, priv_traits = set(), set(), set()
+    for dp, _, fs in os.walk(root):
+        for f in fs:
+            if not f.endswith(".rs"):
+                continue
+            src = open(os.path.join(dp, f)).read().split("#[cfg(test)]")[0]
+            for m in re.finditer(r"^\s*(pub(?:\([a-z: ]+\))?\s+)?(struct|enum|union|trait)\s+(\w+)", src, re.M):
+                vis, kind, name = m.group(1), m.group(2), m.group(3)
+                public = vis is not None and "(" not in vis
+                if kind == "trait":
+                    if not public:
+                        priv_traits.add(name)
+                elif public:
+                    pub_types.add(name)
+                else:
+                    priv_types.add(name)
+    return pub_types, priv_types - pub_types, priv_traits
+
+
 def surface(root="/repo/src"):
     out = []
+    pub_types, priv_types, priv_traits = _crate_items(root)
     for dp, _, fs in os.walk(root):
         for f in sorted(fs):
             if not f.endswith(".rs"):
@@ -64,9 +87,13 @@ def surface(root="/repo/src"):
                         if mt:
                             t = mt.group(1).split("::")[-1]
                             for_ = mt.group(2).replace("{", "").split("::")[-1]
-                            opener = ("trait", None, f"impl {t} for {for_}")
+                            if t in priv_traits or for_ in priv_types:
+                                opener = ("private", None, None)     # a crate-private trait or helper type
+                            else:
+                                opener = ("trait", None, f"impl {t} for {for_}")
                         else:
-                            opener = ("inherent", _norm_hdr(m.group(2)), None)
+                            hdr = _norm_hdr(m.group(2))
+                            opener = ("private", None, None) if hdr.split("::")[-1] in priv_types else ("inherent", hdr, None)
                 in_macro = any(c[0] == "macro" for c in ctx)
                 top = ctx[-1] if ctx else None
                 if opener and opener[0] == "trait" and not in_macro:
